@@ -37,7 +37,7 @@ PROPS["C16"] = {
         "quick": {"timeout": "20s", "maxsteps": 12000000, "bounds": "19 self-recursion skeletons (8 tail, 5 non-tail, 4 mixing returned and discarded self calls, 2 with other calls after a discarded self call); depth n symbolic in 0..3, accumulator a symbolic int64; base case at concrete depth 1100 (> MaxFrames) for 4 tail skeletons; tail loop of symbolic depth 1..3 entered at call nesting MaxFrames-6..MaxFrames+2 (the last usable frame)", "cross": 2},
         "thorough": {"timeout": "60s", "maxsteps": 12000000, "bounds": "same skeletons; depth n symbolic in 0..6", "cross": 3},
     },
-    "reach": {"C16_GenRec": ["genrec"], "C16_Step": ["step"], "C16_Deep": ["deep"], "C16_LastFrame": ["lastframe", "lastframe-unreachable"]},
+    "reach": {"C16_GenRec": ["genrec"], "C16_Step": ["step"], "C16_Deep": ["deep"], "C16_LastFrame": ["lastframe", "lastframe-unreachable"], "C16_StackBand": ["stackband", "stackband-unreachable"]},
     "assumptions": [
         "frame-space constancy at depth 10^6 is claimed by induction: at every tail re-entry observed at the VM's poll, frame index and operand-stack height equal their values at first entry (checked for all arguments within the depth bound) plus the concrete base case at depth 1100; depth 10^6 itself is not executed",
         "the VM probe is the engine's interception of atomic.LoadInt64(&v.aborting) (once per VM instruction); natively the same probe is not available, so the replay checks results only",
@@ -287,7 +287,7 @@ PROPS["C17"] = {
         "quick": {"timeout": "20s", "maxsteps": 12000000, "casecap": 128, "bounds": "directive = '%' + 1..2 symbolic bytes within the documented directive alphabet (flags # 0 + - space, digits 1 2 3 9, . * [ ], all documented verbs) x 17 argument values of the five mapped types (boundary ints incl. MinInt64 and a non-BMP code point, special floats -0 NaN Inf 1e21 1e-7, non-UTF-8 string, bytes) with '*' widths in -2..2; totality on '%' + 1..3 arbitrary bytes with 0..2 arguments; 24 explicit-index/flag/width formats x 3 argument kinds", "cross": 2},
         "thorough": {"timeout": "60s", "maxsteps": 12000000, "casecap": 128, "bounds": "directive of 1..3 symbolic bytes; rest as quick", "cross": 3},
     },
-    "reach": {"C17_Directive": ["directive"], "C17_Total": ["total"], "C17_Indexed": ["indexed"]},
+    "reach": {"C17_Star": ["star"], "C17_Sequence": ["sequence"], "C17_Directive": ["directive"], "C17_Total": ["total"], "C17_Indexed": ["indexed"]},
     "assumptions": [
         "both formatters are executed by the engine: tengo.Format and Go's real fmt.Sprintf (non-reflective paths for int64/float64/string/bool/[]byte; reflect.TypeOf(x).String() emulated for %T and bad-verb texts)",
         "argument values are a boundary set (decimal and shortest-float rendering of symbolic numbers is outside the solver's reach); the directive bytes are symbolic",
